@@ -100,7 +100,8 @@ def accStep (f : Fmt) (isD : Bool) (st : AccSt) (tok : String) (s' t' : F64) (ex
     match tokVal tok with
     | none => fail "parse"
     | some y =>
-      if !(sameVal s' y && sameVal t' (0 : F64)) then fail "after assignment the accumulator must hold exactly (y, +0)"
+      let a := Accum.step prev (.set y)
+      if !(sameVal s' a.s && sameVal t' a.t) then fail "after assignment the accumulator must hold exactly (y, +0)"
       else next y.toDy (Dy.abs y.toDy)
   else if c == 'a' || c == 'd' then
     match tokVal tok with
@@ -108,41 +109,39 @@ def accStep (f : Fmt) (isD : Bool) (st : AccSt) (tok : String) (s' t' : F64) (ex
     | some y0 =>
       let y := if c == 'd' then F64.neg y0 else y0
       if !(fin4 && y.isFinite) then { st with skip := true } else
-      match modelCheck (Accum.add prev y) with
+      -- documented: one rounding of the low word per addition
+      let err := Dy.abs (Dy.sub ha (Dy.add hb y.toDy))
+      let bound := Dy.add (scale (Dy.add (Dy.add (Dy.abs s'.toDy) (Dy.abs y.toDy)) (Dy.abs st.t.toDy)) (1 - 2 * p)) (two (f.emin - 1))
+      if !Dy.le err bound then fail s!"Add lost more than the rounding of the low word: error {err.toFloat}" else
+      match modelCheck (Accum.step prev (if c == 'd' then .sub y0 else .add y0)) with
       | some e => fail e
-      | none =>
-        -- documented: one rounding of the low word per addition
-        let err := Dy.abs (Dy.sub ha (Dy.add hb y.toDy))
-        let bound := Dy.add (scale (Dy.add (Dy.add (Dy.abs s'.toDy) (Dy.abs y.toDy)) (Dy.abs st.t.toDy)) (1 - 2 * p)) (two (f.emin - 1))
-        if !Dy.le err bound then fail s!"Add lost more than the rounding of the low word: error {err.toFloat}"
-        else next (Dy.add st.v y.toDy) (Dy.add (Dy.add st.m (Dy.abs y.toDy)) fl)
+      | none => next (Dy.add st.v y.toDy) (Dy.add (Dy.add st.m (Dy.abs y.toDy)) fl)
   else if c == 'n' then
-    if !(sameVal s' (F64.neg st.s) && sameVal t' (F64.neg st.t)) then fail "negation must flip both words exactly"
+    let a := Accum.step prev .neg
+    if !(sameVal s' a.s && sameVal t' a.t) then fail "negation must flip both words exactly"
     else next (Dy.neg st.v) st.m
   else if c == 'i' then
     match (String.ofList (tok.toList.drop 2)).toInt? with
     | none => fail "parse"
     | some n =>
       if !fin4 then { st with skip := true } else
-      match modelCheck (Accum.mulInt prev n) with
+      let sub := Dy.lt (Dy.abs s'.toDy) (two (f.emin + p)) || Dy.lt (Dy.abs t'.toDy) (two (f.emin + p))
+      if !sub && !Dy.eq ha (Dy.mul hb (Dy.ofInt n)) then fail "multiplication by ± a power of two must be exact" else
+      match modelCheck (Accum.step prev (.mulInt n)) with
       | some e => fail e
-      | none =>
-        let sub := Dy.lt (Dy.abs s'.toDy) (two (f.emin + p)) || Dy.lt (Dy.abs t'.toDy) (two (f.emin + p))
-        if !sub && !Dy.eq ha (Dy.mul hb (Dy.ofInt n)) then fail "multiplication by ± a power of two must be exact"
-        else next (Dy.mul st.v (Dy.ofInt n)) (Dy.mul st.m (Dy.ofInt n.natAbs))
+      | none => next (Dy.mul st.v (Dy.ofInt n)) (Dy.mul st.m (Dy.ofInt n.natAbs))
   else if c == 'm' then
     match tokVal tok with
     | none => fail "parse"
     | some y =>
       if !(fin4 && y.isFinite) then { st with skip := true } else
-      match modelCheck (Accum.mulF prev y) with
+      let err := Dy.abs (Dy.sub ha (Dy.mul hb y.toDy))
+      let ay := Dy.abs y.toDy
+      let bound := Dy.add (Dy.add (scale (Dy.mul ay (Dy.abs st.t.toDy)) (1 - p)) (scale (Dy.mul ay (Dy.abs st.s.toDy)) (1 - 2 * p))) (two (f.emin + 1))
+      if !Dy.le err bound then fail s!"*= lost more than the rounding of the low word: error {err.toFloat}" else
+      match modelCheck (Accum.step prev (.mulF y)) with
       | some e => fail e
-      | none =>
-        let err := Dy.abs (Dy.sub ha (Dy.mul hb y.toDy))
-        let ay := Dy.abs y.toDy
-        let bound := Dy.add (Dy.add (scale (Dy.mul ay (Dy.abs st.t.toDy)) (1 - p)) (scale (Dy.mul ay (Dy.abs st.s.toDy)) (1 - 2 * p))) (two (f.emin + 1))
-        if !Dy.le err bound then fail s!"*= lost more than the rounding of the low word: error {err.toFloat}"
-        else next (Dy.mul st.v y.toDy) (Dy.add (Dy.mul st.m ay) fl)
+      | none => next (Dy.mul st.v y.toDy) (Dy.add (Dy.mul st.m ay) fl)
   else if c == 'c' || c == 'k' then
     if !(sameVal s' st.s && sameVal t' st.t) then fail "copy / const member changed the state" else st
   else if c == 'q' then
@@ -159,22 +158,23 @@ def accStep (f : Fmt) (isD : Bool) (st : AccSt) (tok : String) (s' t' : F64) (ex
       if !(st.s.isFinite && st.t.isFinite) then { st with skip := true } else
       if y.isNaN || y.isZero then (if s'.isNaN then { st with skip := true } else fail "remainder by 0 / NaN must give NaN") else
       if !fin4 then { st with skip := true } else
-      match modelCheck (Accum.remainder prev y) with
-      | some e => fail e
-      | none =>
-        -- (i) straight after remainder(y) the reported value is the held sum rounded to working precision
-        let rn := rndG f ha s'.signbit
-        if !Dy.eq rn.toDy s'.toDy then fail s!"after remainder the reported value {showG s'} is not the held sum _s+_t = {ha.toFloat} rounded to working precision ({showG rn})" else
-        if y.isInf then
-          (if Dy.eq ha hb then next st.v st.m else fail "remainder by ±inf must not change the held sum")
-        else
-        -- (ii) the held sum changed by an exact multiple of y, (iii) into [-|y|/2, |y|/2] up to the low word
-        match multipleOf (Dy.sub hb ha) y.toDy with
-        | none => fail "held sum after remainder is not congruent to the held sum before, modulo y"
-        | some k =>
-          let lim := Dy.add (scale (Dy.abs y.toDy) (-1)) (Dy.abs st.t.toDy)
-          if !Dy.le (Dy.abs ha) lim then fail "held sum after remainder exceeds |y|/2 + |low word|"
-          else next (Dy.sub st.v (Dy.mul (Dy.ofInt k) y.toDy)) (Dy.add st.m (Dy.abs y.toDy))
+      -- (i) straight after remainder(y) the reported value is the held sum rounded to working precision
+      let rn := rndG f ha s'.signbit
+      if !Dy.eq rn.toDy s'.toDy then fail s!"after remainder the reported value {showG s'} is not the held sum _s+_t = {ha.toFloat} rounded to working precision ({showG rn})" else
+      let mc := modelCheck (Accum.step prev (.rem y))
+      if y.isInf then
+        (if !Dy.eq ha hb then fail "remainder by ±inf must not change the held sum" else
+         match mc with | some e => fail e | none => next st.v st.m)
+      else
+      -- (ii) the held sum changed by an exact multiple of y, (iii) into [-|y|/2, |y|/2] up to the low word
+      match multipleOf (Dy.sub hb ha) y.toDy with
+      | none => fail "held sum after remainder is not congruent to the held sum before, modulo y"
+      | some k =>
+        let lim := Dy.add (scale (Dy.abs y.toDy) (-1)) (Dy.abs st.t.toDy)
+        if !Dy.le (Dy.abs ha) lim then fail "held sum after remainder exceeds |y|/2 + |low word|" else
+        match mc with
+        | some e => fail e
+        | none => next (Dy.sub st.v (Dy.mul (Dy.ofInt k) y.toDy)) (Dy.add st.m (Dy.abs y.toDy))
     | _, _ => fail "parse"
   else fail "unknown token"
 
